@@ -34,7 +34,7 @@ def build(src: str, top: str = "Top", init: dict | None = None) -> Built:
         return Built("blocked_by_static", info="; ".join(sorted({e.rule for e in d.errors})) + ": " + str(d.errors[0])[:200],
                      vhdl=vhdl)
     try:
-        sim = Sim(d, top=top)
+        sim = Sim(d, top=top, inputs=init or None)  # inputs defined during the initial run of all processes
         if init:
             sim.poke(**init)
     except Blocked as e:
